@@ -6,25 +6,30 @@
 (* logged with each event must still have their initial values), and       *)
 (* SetAttr / DelAttr on frozen messages.                                   *)
 (***************************************************************************)
-EXTENDS Naturals, Sequences, FiniteSets, TLC, Json, IOUtils
+EXTENDS Naturals, Sequences, SequencesExt, FiniteSets, TLC, Json, IOUtils
 
 Traces == JsonDeserialize(IOEnv.TRACE_FILE)
 VARIABLES tid, verdict
 
-\* fn: sequence of <<input, result>> learnt so far
-Lookup(fn, i) == LET s == {k \in 1..Len(fn) : fn[k][1] = i} IN IF s = {} THEN "none" ELSE fn[CHOOSE k \in s : TRUE][2]
+\* fn: the partial function input -> result learnt so far, as a function over the input indices of the trace ("none" = not seen yet)
+MaxIdx(t) == LET xs == {t.events[k][3] : k \in 1..Len(t.events)} IN IF xs = {} THEN 0 ELSE CHOOSE m \in xs : \A x \in xs : x <= m
 
-RECURSIVE ReplayOps(_, _, _)
-ReplayOps(t, k, fn) ==
-    IF k > Len(t.events) THEN (IF Len(fn) = 0 THEN "triv" ELSE "ok")
-    ELSE LET e == t.events[k] IN
-         IF e[5] # 0 THEN "C13:wrote-to-stdout-or-stderr"
-         ELSE IF e[1] = "begin" THEN ReplayOps(t, k + 1, fn)
-         ELSE IF e[6] # "" /\ e[6] # t.t0 THEN "C13:shared-tables-modified"
-         ELSE LET known == Lookup(fn, e[3]) IN
-              IF known = "none" THEN ReplayOps(t, k + 1, Append(fn, <<e[3], e[4]>>))
-              ELSE IF known # e[4] THEN (IF t.mode = "history" THEN "C13:result-depends-on-history" ELSE "C13:result-depends-on-schedule")
-              ELSE ReplayOps(t, k + 1, fn)
+\* one step of the replay: acc = [fn, seen, v] (v = "" while every event was explained).  Folded over the event sequence with FoldLeft
+\* (evaluated iteratively by TLC; a recursive operator over tens of thousands of events costs quadratic time)
+StepOp(t, acc, e) ==
+    IF acc.v # "" THEN acc
+    ELSE IF e[5] # 0 THEN [acc EXCEPT !.v = "C13:wrote-to-stdout-or-stderr"]
+    ELSE IF e[1] = "begin" THEN acc
+    ELSE IF e[6] # "" /\ e[6] # t.t0 THEN [acc EXCEPT !.v = "C13:shared-tables-modified"]
+    ELSE LET known == acc.fn[e[3]] IN
+         IF known = "none" THEN [acc EXCEPT !.fn[e[3]] = e[4], !.seen = acc.seen + 1]
+         ELSE IF known # e[4] THEN [acc EXCEPT !.v = IF t.mode = "history" THEN "C13:result-depends-on-history" ELSE "C13:result-depends-on-schedule"]
+         ELSE acc
+
+ReplayOps(t) ==
+    LET hdr == [mode |-> t.mode, t0 |-> t.t0]
+        r == FoldLeft(LAMBDA acc, e : StepOp(hdr, acc, e), [fn |-> [i \in 0..MaxIdx(t) |-> "none"], seen |-> 0, v |-> ""], t.events)
+    IN IF r.v # "" THEN r.v ELSE IF r.seen = 0 THEN "triv" ELSE "ok"
 
 RECURSIVE ReplayAttrs(_, _)
 ReplayAttrs(t, k) ==
@@ -35,7 +40,7 @@ ReplayAttrs(t, k) ==
          ELSE IF e[5] # 0 THEN "C13:wrote-to-stdout-or-stderr"
          ELSE ReplayAttrs(t, k + 1)
 
-Judge(t) == IF t.mode = "attrs" THEN ReplayAttrs(t, 1) ELSE ReplayOps(t, 1, <<>>)
+Judge(t) == IF t.mode = "attrs" THEN ReplayAttrs(t, 1) ELSE ReplayOps(t)
 
 Init == tid \in 1..Len(Traces) /\ verdict = "pending"
 Next == /\ verdict = "pending"
